@@ -580,6 +580,10 @@ func cmdReplay(args []string) int {
 		fmt.Fprintln(os.Stderr, err)
 		return 2
 	}
+	if err := bboltFaultOverlay(wd, extra); err != nil {
+		fmt.Fprintln(os.Stderr, err)
+		return 2
+	}
 	ov, _ := overlayFiles(extra)
 	r.ovJSON = filepath.Join(wd, "overlay.json")
 	writeOverlayJSON(r.ovJSON, ov)
